@@ -12,6 +12,8 @@ def declare(reg):
     })
     reg.classdef("IMAPUserServer", {"uid_vv": "int", "maildir": "str"}, path="asimap/user_server.py")
     reg.classdef("ClientProxy", {"name": "str"})
+    # ghost view of the MH folder on disk: the set of message files (A-MH)
+    reg.classdef("MH", {"g_keys": "set[int]"})
     reg.classdef(
         "Authenticated",
         {
@@ -63,6 +65,7 @@ def declare(reg):
             "folder_size_pack_limit": "int",
             "folder_ratio_pack_limit": "float",
             "server": "ref:IMAPUserServer",
+            "mailbox": "ref:MH",
         },
         invariant={
             # DESIGN 6.2 Inv.1-4 (memory part)
@@ -74,6 +77,8 @@ def declare(reg):
             "next-uid": "self.next_uid >= 1 and forall(lambda i: implies(0 <= i and i < len(self.uids), self.uids[i] < self.next_uid))",
             "idx-keys": "index_of(self._msg_key_to_idx, self.msg_keys)",
             "idx-uids": "index_of(self._uid_to_idx, self.uids)",
+            # Inv.5 (first part): sequences mention only messages of the mailbox
+            "seq-keys-exist": "forall(lambda s, k: implies(s in self.sequences and k in get(self.sequences, s), k in self.msg_keys), 'str', 'int')",
         },
         path="asimap/mbox.py",
     )
